@@ -274,7 +274,7 @@ pub fn run_case<R: RecUni>(spec: &ShapeSpec, proof_tree: &Value, honest_common: 
 
 fn shape_for(seed: u64, idx: u64, tier: Tier) -> ShapeSpec {
     let mut rng = Rng::new(seed, "C15", idx);
-    let mut spec = if idx % 2 == 0 { draw_shape::<crate::rec::kb4::U>(&mut rng, tier, None) } else { draw_shape::<crate::rec::bb4::U>(&mut rng, tier, None) };
+    let mut spec = crate::with_rec_universe!(crate::rec::universe_of(idx), U, draw_shape::<U>(&mut rng, tier, None));
     // keep structural enumeration tractable: few queries, small traces
     spec.fri.num_queries = spec.fri.num_queries.min(2);
     spec.log_n = spec.log_n.min(4).max(spec.fri.log_final_poly_len + 1);
@@ -447,7 +447,7 @@ pub fn main(ctx: &Ctx) -> i32 {
         let idx: u64 = w.parse().unwrap_or(0);
         let from: usize = ctx.args.get("from").and_then(|x| x.parse().ok()).unwrap_or(0);
         let only: Option<usize> = ctx.args.get("only").and_then(|x| x.parse().ok());
-        return if idx % 2 == 0 { worker::<crate::rec::kb4::U>(ctx, idx, from, only) } else { worker::<crate::rec::bb4::U>(ctx, idx, from, only) };
+        return crate::with_rec_universe!(crate::rec::universe_of(idx), U, worker::<U>(ctx, idx, from, only));
     }
     if let Some(path) = &ctx.replay {
         let body: Value = match std::fs::read_to_string(path).ok().and_then(|s| serde_json::from_str(&s).ok()) {
